@@ -291,6 +291,30 @@ def float_roundtrip(rng, tier):
                     th_ = 'theta<=eps' if rn <= eps else ('theta in (eps,sqrt(eps)]' if rn <= math.sqrt(eps) else 'theta>sqrt(eps)')
                     sg_ = '' if g in ('SO3', 'SE3') else (',|sigma|>eps' if abs(xv[-1]) > eps else ',|sigma|<=eps')
                     fails.append(dict(clause='log_exp_is_identity', signature=f'{a}/{str(dtype).split(".")[-1]}/{th_}{sg_}', err=err, x=xv))
+    # BATCHES that mix the regimes of the code (identity rotation, tiny angle, near pi, exactly pi, generic; unit and non-unit scale) in several
+    # orders: Log of the batch is Log of each item, whatever its batch mates and its position (masked / scattered computations show here)
+    import itertools
+    for dtype in (torch.float64, torch.float32):
+        eps = torch.finfo(dtype).eps
+        def qz(axis, ang):
+            ax = torch.tensor(axis, dtype=torch.float64); ax = ax / ax.norm()
+            return torch.cat([ax * math.sin(ang / 2), torch.tensor([math.cos(ang / 2)], dtype=torch.float64)])
+        quats = [torch.tensor([0., 0, 0, 1], dtype=torch.float64), qz([1., 2, 3], 1e-9), qz([1., -1, 0.5], 1.1), qz([0.2, 1, -1], math.pi - 1e-6), torch.tensor([0.6, 0.0, 0.8, 0.0], dtype=torch.float64), qz([3., 1, 2], 2.9)]
+        trans = torch.randn(6, 3, dtype=torch.float64); scal = torch.tensor([1.0, 2.5, 1.0, 0.3, 1.0, 1.7], dtype=torch.float64).unsqueeze(-1)
+        Q4 = torch.stack(quats, 0)
+        full = {'SO3': Q4, 'SE3': torch.cat([trans, Q4], -1), 'RxSO3': torch.cat([Q4, scal], -1), 'Sim3': torch.cat([trans, Q4, scal], -1)}
+        for g, data in full.items():
+            X = pp.LieTensor(data.to(dtype), ltype=getattr(pp, g + '_type'))
+            single = torch.stack([X[i].Log().tensor() for i in range(6)], 0)
+            for order in ([0, 1, 2, 3, 4, 5], [5, 4, 3, 2, 1, 0], [2, 0, 4, 1, 5, 3], [1, 2, 0, 5, 3, 4]):
+                try:
+                    Lb = X[order].Log().tensor(); evals += 1
+                except Exception as e:
+                    fails.append(dict(clause='log_of_a_mixed_batch_raises', signature=f'{g}/{str(dtype).split(".")[-1]}', order=order, error=f'{type(e).__name__}: {e}'[:140])); break
+                if not torch.allclose(Lb, single[order], atol=64 * eps, rtol=64 * eps, equal_nan=False):
+                    fails.append(dict(clause='log_of_a_mixed_batch_is_itemwise', signature=f'{g}/{str(dtype).split(".")[-1]}', order=order,
+                                      err=float((Lb - single[order]).abs().nan_to_num(nan=1e9).max())))
+                    break
     best = {}
     for f in fails:
         kk = (f['clause'], f['signature'])
